@@ -346,7 +346,7 @@ func C10(e *Env) {
 	run.Obs("refcrypt_anchor", note)
 	dir := e.Dir("c10")
 	rng := e.Rng(10)
-	nCases := e.Pick(3000, 60000)
+	nCases := e.Pick(3000, 400000)
 	nOps := e.Pick(100, 150)
 	var cases []c10Case
 	for i := 0; i < nCases; i++ {
